@@ -13,7 +13,7 @@ LEVEL_TEXT = ("Complete enumeration of branch mnemonic x every displacement from
               "target from ROM) x LoROM/HiROM; each program assembled by the real assembler, whole output compared with the "
               "displacement formula or required to be rejected. One unit test checks one displacement of -5.")
 LEVEL_NOTE = ("Trusted: displacement formula target-(branch+2) on run addresses, mc/ref/bus.py for offsets. Cross-bank branches are "
-              "outside the claim and not generated. bvc/bvs/brl are not in a816's table; they only have to be rejected or correct.")
+              "outside the claim except LoROM neighbours across a bank end (0x8000 apart as run addresses: out of range). bvc/bvs/brl are not in a816's table; they only have to be rejected or correct.")
 TECHNIQUE = "exhaustive enumeration of displacement range x placements x relocations against the displacement formula"
 RULE = ("case = (bus, mnemonic, form, placement, relocation); it assembles one program per displacement of the range. "
         "evaluations = programs assembled. non-trivial = |d| within 4 of a range edge (-128 or +127), or a RAM-space case; "
@@ -27,7 +27,7 @@ BUSES = {"low_rom": (0x01, 0x8000, 0x10000), "high_rom": (0x41, 0x0000, 0x10000)
 
 def bound(tier):
     r = 400 if tier == "thorough" else 160
-    return f"7 supported + 2 unsupported branch mnemonics x d in [-{r},{r}] x 3 forms x 4 placements x 3 origins/relocations x 2 buses + RAM-space families + same source alternately under both mappings in one process + far same-bank targets, branches after an .incbin of 16..4096 bytes, forward branches to a label shadowing an outer one"
+    return f"7 supported + 2 unsupported branch mnemonics x d in [-{r},{r}] x 3 forms x 4 placements x 3 origins/relocations x 2 buses + RAM-space families + same source alternately under both mappings in one process + far same-bank targets, LoROM branches across a bank end, branches after an .incbin of 16..4096 bytes, forward branches to a label shadowing an outer one"
 
 
 def cases(tier, seed):
@@ -259,6 +259,22 @@ def run_extras(busname, mn):
                 outcomes.add("FAR-ACCEPTED")
             else:
                 outcomes.add("far-rejected")
+    # (a2) LoROM only: the branch at the end of a bank and its target at the start of the NEXT bank (or the other way round) are
+    # neighbours in the file but 0x8000 apart as run addresses: out of range, must be rejected (under HiROM consecutive banks
+    # are numerically contiguous, the statement is silent there)
+    if busname == "low_rom":
+        for k in (0, 1, 2, 5, 100):
+            cross = [f"*=0x{base + whi - 2 - k:06x}\n{mn} nxt\n" + filler(k) + "nxt:\n.db 0xEA\n",
+                     f"*=0x{base + whi - 4 - k:06x}\nprv:\nnop\nnop\nnop\nnop\n" + filler(k) + f"{mn} prv\n",
+                     f"*=0x{base + whi - 2:06x}\n{mn} 0x{base + 0x10000 + wlo + k:06x}\n"]
+            for src in cross:
+                out = impl.assemble(src, rom=busname)
+                n += 1
+                if out.accepted:
+                    viol.append({"key": "branch:out-of-range-accepted:next-bank", "msg": f"{busname}: branch and target are in different banks, 0x8000 apart as run addresses: {out.brief()} :: {src!r}"})
+                    outcomes.add("CROSS-BANK-ACCEPTED")
+                else:
+                    outcomes.add("cross-bank-rejected")
     # (b)
     for size in (0x10, 0x3FF, 0x400, 0x401, 0x1000):
         for d in (-128, -3, 0, 5, 127, 128, -129):
